@@ -16,7 +16,7 @@ def kappaF : Nat → Float
   | 0 => 0.0 | 1 => -0.1850 | 2 => -1.0 / 9.0 | 3 => -0.0823 | 4 => -0.0415 | _ => 0.0
 
 def lits : Lits Float :=
-  { zero := 0.0, one := 1.0, two := 2.0, half := 0.5, tenth := 0.1, safety := 0.9, minFactor := 0.2, maxFactor := 10.0,
+  { zero := 0.0, one := 1.0, two := 2.0, half := 0.5, tenth := 0.1, safety := 0.9, minFactor := 0.2, maxFactor := 10.0, stretch := 1.01,
     minPositive := Float.ofBits 0x0010000000000000, inf := Float.ofBits 0x7FF0000000000000, kappa := kappaF }
 
 def flagOf (s : String) : Flag := if s == "1" then .interrupt else if s == "2" then .modified else .cont
